@@ -570,4 +570,56 @@ def handlerCtx (c : Ctx) (ps : Params) : Ctx :=
 /-- what `pathvar.Vars(r)` shows inside the route handler (`nil` and the empty map print alike). -/
 def delivered (c : Ctx) (ps : Params) : List (String × String) := ((handlerCtx c ps).vars).getD []
 
+/-! ### round 5c: registration with the MUTATION visible (what the Go structures hold after a call, also a failing one) -/
+
+/-- get-or-create on one children map, in place: `f` returns the child after the call and the error (if any); a child
+created for an intermediate segment is stored even when the recursion below it fails. -/
+def updKidM (k : String) (f : Option Node → Node × Option AddErr) :
+    List (String × Node) → List (String × Node) × Option AddErr
+  | [] => ([(k, (f none).1)], (f none).2)
+  | (k', c) :: tl =>
+    if k' = k then ((k', (f (some c)).1) :: tl, (f (some c)).2)
+    else ((k', c) :: (updKidM k f tl).1, (updKidM k f tl).2)
+
+def updChildM (n : Node) (k : String) (f : Option Node → Node × Option AddErr) : Node × Option AddErr :=
+  if isVar k then (n.setVars (updKidM k f n.vars).1, (updKidM k f n.vars).2)
+  else (n.setLits (updKidM k f n.lits).1, (updKidM k f n.lits).2)
+
+/-- `add(nd, route, item)` as the Go code runs it: the node AFTER the call (pointer structure mutated in place) and the
+error.  `errDupItem` is detected before anything is written; `errDupSlash` may leave item-less nodes behind. -/
+def addM : List String → Node → H → Node × Option AddErr
+  | [], n, _ => (n, none)
+  | t :: rest, n, h =>
+    match rest with
+    | [] =>
+      if t = "" then (if n.item.isSome then (n, some .dupItem) else (n.setItem h, none))
+      else updChildM n t fun
+        | some c => if c.item.isSome then (c, some .dupItem) else (c.setItem h, none)
+        | none => (newNode (some h), none)
+    | _ :: _ =>
+      if t = "" then (n, some .dupSlash)
+      else updChildM n t fun oc => addM rest (oc.getD (newNode none)) h
+
+/-- `patRouter.Handle` as the Go code runs it: the router AFTER the call and the error.  The validations return
+before anything is touched; a missing method tree is created and stored BEFORE `tree.Add` runs (also when `Add` then
+fails); `Add` rejects a nil handler before touching the tree. -/
+def handleM (r : Router) (method path : String) (item : Option H) : Router × Option HandleErr :=
+  if !validMethod method then (r, some .invalidMethod)
+  else if !rooted path then (r, some .invalidPath)
+  else
+    let r1 : Router := if (r.trees.lookup method).isSome then r else { trees := r.trees ++ [(method, newNode none)] }
+    match item with
+    | none => (r1, some (.tree .emptyItem))
+    | some h =>
+      let res := addM (cleanToks path) ((r.trees.lookup method).getD (newNode none)) h
+      ({ trees := setTree method res.1 r1.trees }, res.2.map HandleErr.tree)
+
+/-- `engine.bindRoutes` over the flattened list with the mutation visible: the router after the start-up attempt. -/
+def bindAllM (r : Router) : List Reg → Router × Option HandleErr
+  | [] => (r, none)
+  | (m, p, item) :: rest =>
+    match (handleM r m p item).2 with
+    | none => bindAllM (handleM r m p item).1 rest
+    | some e => ((handleM r m p item).1, some e)
+
 end GoZero.C09
